@@ -4,7 +4,7 @@ CONSTANTS
     Ws = {1, 2, 3}
     Modes = {"seq", "par"}
     Variants = {"plain", "ia", "derived"}
-    ColSets = {{"k"}, {"x"}, {"k", "i", "x"}}
+    ColSets = {{"k"}, {"x"}, {"k", "i", "x"}, {"q"}, {"x", "q"}}
     Kinds = {"time_course"}
     FailModes = {"intfail"}
     MaxDur = 1
